@@ -52,6 +52,11 @@ fn to_builder(t: &BT, vars: &[Var]) -> Expr {
         BT::And(xs) => if xs.len() == 2 { g(&xs[0]) & g(&xs[1]) } else { all(xs.iter().map(g).collect::<Vec<_>>()) },
         BT::Or(xs) => if xs.len() == 2 { g(&xs[0]) | g(&xs[1]) } else { any(xs.iter().map(g).collect::<Vec<_>>()) },
         BT::Not(x) => !g(x), BT::Xor(a, c) => g(a) ^ g(c), BT::Implies(a, c) => g(a).implies(g(c)), BT::Iff(a, c) => g(a).iff(g(c)),
+        // an integer-valued literal next to a composite expression goes through the `i32 OP Expr` / `Expr OP i32` impls
+        BT::Bin(k, a, c) if matches!(&**a, BT::Num(v) if v.fract() == 0.0 && v.abs() < 1000.0) && !matches!(&**c, BT::Num(_) | BT::Var(_)) && *k <= 3 =>
+            { let n = if let BT::Num(v) = &**a { *v as i32 } else { 0 }; match k { 0 => n + g(c), 1 => n - g(c), 2 => n * g(c), _ => n / g(c) } }
+        BT::Bin(k, a, c) if matches!(&**c, BT::Num(v) if v.fract() == 0.0 && v.abs() < 1000.0 && *v != 0.0) && !matches!(&**a, BT::Num(_) | BT::Var(_)) && *k <= 3 =>
+            { let n = if let BT::Num(v) = &**c { *v as i32 } else { 1 }; match k { 0 => g(a) + n, 1 => g(a) - n, 2 => g(a) * n, _ => g(a) / n } }
         BT::Bin(0, a, c) => match (&**a, &**c) { (BT::Var(i), BT::Var(j)) => vars[*i] + vars[*j], (BT::Num(v), BT::Var(j)) => *v + vars[*j], (BT::Var(i), BT::Num(v)) => vars[*i] + *v, _ => g(a) + g(c) },
         BT::Bin(1, a, c) => match (&**a, &**c) { (BT::Var(i), BT::Var(j)) => vars[*i] - vars[*j], (BT::Num(v), BT::Var(j)) => *v - vars[*j], (BT::Var(i), BT::Num(v)) => vars[*i] - *v, _ => g(a) - g(c) },
         BT::Bin(2, a, c) => match (&**a, &**c) { (BT::Num(v), BT::Var(j)) => *v * vars[*j], (BT::Var(i), BT::Num(v)) => vars[*i] * *v, (BT::Num(v), _) => *v * g(c), (_, BT::Num(v)) => g(a) * *v, _ => g(a) * g(c) },
@@ -261,6 +266,28 @@ fn main() {
                     (_, Err(e)) => { rep.count("text.does_not_transform"); if i % 50 == 0 { rep.sample(json!({"untransformable_text": text, "error": e.chars().take(200).collect::<String>()}), 20); } }
                 }
                 if i % 211 == 0 { rep.sample(json!({"text": text, "order": c.order}), 8); }
+            }
+            // data through the API: the same program compiled (a) by parse_and_transform with constants, (b) by the staged pipes with
+            // the same constants in the PipeContext, (c) with the data written in a where block - three times the same linear model
+            for i in 0..(n / 10).max(8) {
+                let k = 2 + r.below(4);
+                let w: Vec<i64> = (0..k).map(|_| r.range(1, 60)).collect(); let v: Vec<i64> = (0..k).map(|_| r.range(1, 40)).collect(); let cap = r.range(10, 120);
+                let head = "max sum((value, i) in enumerate(values)) { value * x_i }\ns.t.\n    sum((weight, i) in enumerate(weights)) { weight * x_i } <= capacity\n    x_0 + x_1 >= shift";
+                let tail = "define\n    x_i as Boolean for i in 0..len(weights)";
+                let shift = r.range(0, 1);
+                let src = format!("{head}\n{tail}");
+                let src_data = format!("{head}\nwhere\n    let weights = {:?}\n    let values = {:?}\n    let capacity = {}\n    let shift = {}\n{tail}", w, v, cap, shift);
+                let consts = || vec![rooc::Constant::from_primitive("weights", rooc::IterableKind::Integers(w.clone()).into_primitive()), rooc::Constant::from_primitive("values", rooc::IterableKind::Integers(v.clone()).into_primitive()),
+                    rooc::Constant::from_primitive("capacity", rooc::Primitive::Integer(cap)), rooc::Constant::from_primitive("shift", rooc::Primitive::Integer(shift))];
+                let fns = IndexMap::new();
+                let a = RoocParser::new(src.clone()).parse_and_transform(consts(), &fns).map_err(|e| e.chars().take(160).collect::<String>()).and_then(|m| Linearizer::linearize(m).map_err(|e| e.to_string())).map(|l| l.to_string());
+                let runner = PipeRunner::new(vec![Box::new(CompilerPipe::new()), Box::new(PreModelPipe::new()), Box::new(ModelPipe::new()), Box::new(LinearModelPipe::new())]);
+                let bpipe = match runner.run(PipeableData::String(src.clone()), &PipeContext::new(consts(), &fns)) { Ok(st) => match st.last() { Some(PipeableData::LinearModel(l)) => Ok(l.to_string()), _ => Err("last stage is not a linear model".to_string()) }, Err((e, _)) => Err(format!("{}", e).chars().take(160).collect::<String>()) };
+                let c = RoocParser::new(src_data.clone()).parse_and_transform(vec![], &fns).map_err(|e| e.chars().take(160).collect::<String>()).and_then(|m| Linearizer::linearize(m).map_err(|e| e.to_string())).map(|l| l.to_string());
+                rep.count("api_data_cases");
+                if a != c { rep.fail(json!({"prop":"C16","kind":"data-through-the-api-compiles-differently-from-data-in-the-text","class":"unclassified","text":src_data,"api":format!("{:?}", a),"text_result":format!("{:?}", c)})); }
+                if bpipe != a { rep.fail(json!({"prop":"C16","kind":"pipes-and-direct-calls-disagree-on-api-data","class":"unclassified","text":src_data,"pipes":format!("{:?}", bpipe),"direct":format!("{:?}", a)})); }
+                let _ = i;
             }
             // text-only cases: ill-typed pieces that are never evaluated (iteration over an empty range): every text entry point
             // must give the same verdict (the type checker's)
